@@ -58,6 +58,7 @@ def zero : Val := .fin 0 1
 inductive K where
   | lpar | rpar | comma | ws | fix | low | init | up | rep
   | sd | var       -- SD / VAR options of a `diag_item` (omega_record.py)
+  | block          -- the `block` subtree `BLOCK(n)` among the children of an omega record root
   | other          -- COMMENT, NEWLINE, CONT, …: never inspected by theta_record.py
   deriving DecidableEq, Repr, Inhabited
 
